@@ -144,6 +144,12 @@ class PropertyRun:
                         self.assumptions.add("inlined real body in place of a contract: " + a)
                 for w in ex.warnings:
                     self.assumptions.add(w)
+                for lab, anchor in getattr(ex, "skipped_clauses", []) or []:
+                    lab0, ps = clause_props(lab)
+                    if ps is None or self.pid in ps:
+                        self.undecided.append(dict(obligation="%s/%s/ensures:%s" % (self.pid, ex.cur_fn, lab0),
+                                                   reason="not checked: the clause speaks about ghost state anchored at the statement `%s...`, which the function no longer contains" % anchor[:60]))
+                        self.out_of_subset.append(c)
             except (Unsupported, BindError) as e:
                 if os.environ.get("PYVC_DEBUG"):
                     traceback.print_exc()
